@@ -31,4 +31,3 @@ Definition spacings_okb (d : dtables) : bool := forallb (fun s => adj spacing_ok
 (* every tabulated radius lies in [0, 1/4] m *)
 Definition radius_okb (k : dknot) : bool := dy_leb (0, 0)%Z (dk_radius k) && dy_le_q (dk_radius k) 1 4.
 Definition radii_okb (d : dtables) : bool := forallb (fun s => forallb radius_okb (fst s)) d.
-Definition cont_checks : bool := spacings_okb d_tables && radii_okb d_tables.
